@@ -198,3 +198,19 @@ PROPS["C01"] = dict(
     max_parallel=14,
     min_evaluations={"quick": 100, "thorough": 1000},
 )
+
+PROPS["C02"] = dict(
+    title="Multipart messages stay whole, contiguous and correctly flagged",
+    rule="(styles) 1..3 sender peers -> one receiver of type PULL/SUB/DEALER/ROUTER/REP/REQ over tcp/inproc/ipc, messages of 1..255 frames "
+         "(empty frames anywhere, sizes 0/1/7/39/255/256/257 plus one self-describing frame), sent with send_multipart or frame by frame; the "
+         "receiver reads with recv() only, recv_multipart() only, or a random mix; everything obtained is flattened into one frame stream that "
+         "must parse (at frames without MORE) into exactly the sent messages, whole, per-peer order preserved. (detach) a 6-frame message is "
+         "half read with recv(), then ANOTHER peer attaches / closes / is killed (waited for on the monitor), then reading continues. "
+         "(oversize) 255/256/300 frames via send_multipart and frame-by-frame on PUSH/DEALER/PUB/ROUTER: an error at the sender or a closed "
+         "connection, never a panic (caller's task included) and never a truncated delivery; the receiver must still serve a healthy peer. "
+         "distinct = (receiver, style, transport, peers, shapes).",
+    assumptions=["ROUTER.send_multipart is given correctly flagged frames, as its documentation demands",
+                 "DEALER senders are paced (15 ms) because DEALER egress ordering is a recorded C01 finding"],
+    shards=lambda tier, seed: sharded("c02", _n(tier, 12, 16), _n(tier, 300, 1800)),
+    min_evaluations={"quick": 60, "thorough": 400},
+)
